@@ -194,7 +194,8 @@ def dec4(text):
     return -v if neg else v
 
 
-MSG_LINE = re.compile(r'\s*(?P<time>-?\d+\.\d{4}) (?P<conn>\w*): (?P<body>.*)', re.S)
+# (any number of decimals is read: a time column the tool gets wrong is a wrong time, not an unreadable line)
+MSG_LINE = re.compile(r'\s*(?P<time>-?\d+\.\d+) (?P<conn>\w*): (?P<body>.*)', re.S)
 NOTICE = re.compile(r'(?P<what>New|Closed) (?P<role>client|server|unknown type) connection (?P<name>\w+)')
 SEP = re.compile(r'    ───┤ (?P<gap>-?\d+\.\d{4})s ├───')
 JUNK = re.compile(r'       \|  (?P<text>.*)', re.S)
